@@ -42,6 +42,20 @@ Theorem write_visible : forall d k del v k', Inv d ->
 Proof. exact db_write_get. Qed.
 Print Assumptions write_visible.
 
+(* the rotation decision is DATA, not a prediction: [db_write_at d k del v rot] is the write after which the implementation did
+   (rot = true) or did not rotate the memtable - whatever policy (sizes, what a WAL carries over a checkpoint) decided it. A write
+   is visible at once and changes no other key for EVERY decision; so contents never depend on when a rotation happens. [reach],
+   [reachc] and [sreach] contain the writes with every decision ([AWriteAt], [sr_write_at]); the world model replays the observed one. *)
+Theorem write_visible_at_any_rotation_point : forall d k del v rot k', Inv d ->
+  db_get (db_write_at d k del v rot) k' = if beqb k' k then (if del then None else Some v) else db_get d k'.
+Proof. exact db_write_at_get. Qed.
+Print Assumptions write_visible_at_any_rotation_point.
+
+Theorem rotation_point_irrelevant : forall d k del v rot rot' k', Inv d ->
+  db_get (db_write_at d k del v rot) k' = db_get (db_write_at d k del v rot') k'.
+Proof. exact C08_Ckpt.rotation_point_irrelevant. Qed.
+Print Assumptions rotation_point_irrelevant.
+
 (* "nothing left to replay" is never turned into an error: the skip loop never runs past the end, the gap check never fires *)
 Theorem replay_never_fails : forall d, reach d ->
   exists es, wal_read (cp_wal (snd (db_checkpoint d))) (cp_after (snd (db_checkpoint d))) = ROk es.
